@@ -33,24 +33,27 @@ class _dtype_value_context:
             cls._global_half_value = half_value
 
     def __init__(self, float_value=None, double_value=None, half_value=None):
-        self._orig_float_value = self.__class__.value(dtype=torch.float)
         self._instance_float_value = float_value
-        self._orig_double_value = self.__class__.value(dtype=torch.double)
         self._instance_double_value = double_value
-        self._orig_half_value = self.__class__.value(dtype=torch.half)
         self._instance_half_value = half_value
+        # values in force at each (possibly nested) __enter__ of this object, restored by the matching __exit__
+        self._orig_values = []
 
     def __enter__(
         self,
     ):
-        self.__class__._set_value(
+        cls = self.__class__
+        self._orig_values.append((cls._global_float_value, cls._global_double_value, cls._global_half_value))
+        cls._set_value(
             self._instance_float_value,
             self._instance_double_value,
             self._instance_half_value,
         )
 
     def __exit__(self, *args):
-        self.__class__._set_value(self._orig_float_value, self._orig_double_value, self._orig_half_value)
+        # assign directly: _set_value skips None, but a previously unset (None) slot must become unset again
+        cls = self.__class__
+        cls._global_float_value, cls._global_double_value, cls._global_half_value = self._orig_values.pop()
         return False
 
 
@@ -81,14 +84,16 @@ class _feature_flag:
         cls._state = state
 
     def __init__(self, state=True):
-        self.prev = self.__class__._state
         self.state = state
+        # states in force at each (possibly nested) __enter__ of this object, restored by the matching __exit__
+        self._prev_states = []
 
     def __enter__(self):
+        self._prev_states.append(self.__class__._state)
         self.__class__._set_state(self.state)
 
     def __exit__(self, *args):
-        self.__class__._set_state(self.prev)
+        self.__class__._set_state(self._prev_states.pop())
         return False
 
 
@@ -104,16 +109,18 @@ class _value_context:
         cls._global_value = value
 
     def __init__(self, value):
-        self._orig_value = self.__class__.value()
         self._instance_value = value
+        # values in force at each (possibly nested) __enter__ of this object, restored by the matching __exit__
+        self._orig_values = []
 
     def __enter__(
         self,
     ):
+        self._orig_values.append(self.__class__.value())
         self.__class__._set_value(self._instance_value)
 
     def __exit__(self, *args):
-        self.__class__._set_value(self._orig_value)
+        self.__class__._set_value(self._orig_values.pop())
         return False
 
 
